@@ -169,9 +169,16 @@ def do_job(job):
     w = rt.vw(FL)
     rng = rt.rng_for(nz, "pert")
     setup = [rt.obj_line(0, align=4)]
+    # entry point and argument placement vary per job: separate buffers, or phrase and setting kept in the
+    # object's own input/setting fields (the usage crypt.h suggests)
+    entry = ("crypt_rn", "crypt_r", "crypt_rn", "crypt_r")[(nz >> 2) & 3]
+    place = "sipg"[nz % 4]
+
+    def cl(p_, s_):
+        return rt.crypt_line(entry, 0, p_, s_, "=", place)
     H = None
     for s, form in cands:
-        res, end = w.run(setup + [rt.crypt_line("crypt_rn", 0, base, s)], 200)
+        res, end = w.run(setup + [cl(base, s)], 200)
         if end is None and rt.hash_of(res[-1]) is not None:
             H = rt.hash_of(res[-1])
             break
@@ -189,11 +196,11 @@ def do_job(job):
     win = window(m, s, len(base))
     for i in positions:
         for lab, p2 in perturb(rng, m, base, i):
-            lines.append(rt.crypt_line("crypt_rn", 0, p2, s))
+            lines.append(cl(p2, s))
             meta.append(("phrase-" + lab, i, p2, s))
     if len(base) < win:
         for c in (0x41, 0x7e):
-            lines.append(rt.crypt_line("crypt_rn", 0, base + bytes([c]), s))
+            lines.append(cl(base + bytes([c]), s))
             meta.append(("phrase-extend", len(base), base + bytes([c]), s))
     # setting perturbations: every character of the canonical setting part
     # (the tag itself is not salt or cost: e.g. $2a$/$2b$/$2y$ are the same
@@ -220,7 +227,7 @@ def do_job(job):
             if gen.cost_units(s2, len(base)) > BUDGET * 4:
                 acc.count("skipped_expensive")
                 continue
-            lines.append(rt.crypt_line("crypt_rn", 0, base, s2))
+            lines.append(cl(base, s2))
             meta.append(("setting-char", j, base, s2))
     rows = rt.run_resilient(w, setup, lines, timeout=200)
     for (kind, pos, p2, s2), r, ln in zip(meta, rows, lines):
@@ -248,7 +255,7 @@ def do_job(job):
                 acc.violation("%s/phrase-insensitive/%s" % (PID, m),
                               "setting=%r base-len=%d %s at byte %d gives the same hash %r" % (
                                   s, len(base), kind, pos, H),
-                              rt.replay_obj(FL, setup + [rt.crypt_line("crypt_rn", 0, base, s), ln]))
+                              rt.replay_obj(FL, setup + [cl(base, s), ln]))
         else:
             if set2 == Hset:
                 acc.count("setting_char_ignored")      # canonical form unchanged: documented-insignificant
@@ -268,7 +275,7 @@ def do_job(job):
                 acc.violation("%s/salt-insensitive/%s" % (PID, m),
                               "settings %r and %r (canonical parts differ) give the same digest %r" % (
                                   Hset, set2, Hdig),
-                              rt.replay_obj(FL, setup + [rt.crypt_line("crypt_rn", 0, base, s), ln]))
+                              rt.replay_obj(FL, setup + [cl(base, s), ln]))
     acc.sample({"method": m, "setting": s.decode("latin1"), "base_len": len(base),
                 "positions": len(positions), "hash": H.decode("latin1")}, cap=2)
     return acc
